@@ -330,3 +330,38 @@ def serial_subrule(rep: Report, prog: Program, tier: str, PROP: str, RULE: str, 
     rep.discharged += n_ok
     for s in sub.samples[:2]:
         rep.samples.append(s)
+
+
+def description_slots_rule(rep: Report, prog: Program, PROP: str, RULE: str) -> None:
+    """The 'replace description' step of setLocal/RemoteDescription, evaluated per description type: an answer becomes the
+    current description and clears the pending one; an offer becomes the pending one and leaves the current one alone."""
+    from types import SimpleNamespace
+
+    from engine.index import Unknown, walk_no_nested
+    from engine.peval import Evaluator, Raised
+    rep.rule(RULE, "description slots after setLocal/RemoteDescription, per description type", min_instances=4)
+    PC = "rtcpeerconnection.RTCPeerConnection"
+    for fn, side in (("setLocalDescription", "Local"), ("setRemoteDescription", "Remote")):
+        fi = prog.func(f"{PC}.{fn}")
+        cur_a, pend_a = f"__current{side}Description", f"__pending{side}Description"
+        stmts = [s for s in fi.node.body if any(isinstance(t, ast.Attribute) and t.attr in (cur_a, pend_a) and isinstance(t.ctx, ast.Store) for t in ast.walk(s))]
+        if not stmts:
+            raise AnalysisError(f"{fn}: statements writing the description slots not found at the top level of the function")
+        for typ in ("offer", "answer"):
+            me = SimpleNamespace(**{cur_a: "old-current", pend_a: "old-pending"})
+            desc = SimpleNamespace(type=typ)
+            ev = Evaluator(prog, fi.module, fi.cls, {"self": me, "description": desc})
+            try:
+                for s in stmts:
+                    ev.exec_stmt(s)
+            except (Unknown, Raised) as ex:
+                raise AnalysisError(f"{fn}: cannot evaluate the slot update for a {typ}: {ex}")
+            got = (getattr(me, cur_a), getattr(me, pend_a))
+            want = (desc, None) if typ == "answer" else ("old-current", desc)
+            show = lambda v: "the new description" if v is desc else repr(v)  # noqa: E731
+            if got[0] is want[0] and got[1] is want[1] or got == want:
+                rep.ok(RULE, f"{fn}({typ})", sample=f"current = {show(got[0])}, pending = {show(got[1])}")
+            else:
+                rep.fail(mk_finding(prog, PROP, RULE, fi, stmts[0],
+                                    f"{fn}({typ}) leaves current = {show(got[0])}, pending = {show(got[1])}; expected current = {show(want[0])}, pending = {show(want[1])} — "
+                                    f"a stale pending description is what `{side.lower()}Description` reports in the next negotiation round", construct=f"{side.lower()} slots after {typ}"))
